@@ -14,7 +14,7 @@ import os
 import re
 import time
 
-from vlib import common, proggen, c03gen
+from vlib import common, proggen, c03gen, ringwrap
 from vlib.common import Diff, VERIF, LEAN
 
 AREA = "lang"
@@ -502,6 +502,16 @@ def case_label_family():
     return out
 
 
+def ringwrap_family(quick):
+    """tools/vlib/ringwrap.py: every peephole-sensitive statement shape (double not, not of a literal, folded unary
+    minus, load/store fusion, cast+jump fusion ...) behind every pad of 2..101 recorded opcodes, so that each rewrite
+    meets each index of the emitter's 100-entry look-back ring, wrap-around included (seeded change C02-ind-4: the
+    ring stepped back with unsigned `(pos - 1) % 100`); only the plain layout is used: the pad counts opcodes"""
+    ks = range(2, 102) if quick else range(2, 302)
+    vs = [0] if quick else [0, 1, 2, 3]
+    return [{"prog": p["ast"], "label": "main", "args": [], "consts": {}, "name": p["name"]} for p in ringwrap.sweep(ks, vs, typed_only=True)]
+
+
 def corpus_cases():
     res = []
     for p in sorted(glob.glob(os.path.join(VERIF, "corpus", "C03", "*.json"))):
@@ -559,6 +569,8 @@ def check(ctx):
         fam.append(add("jumptargets:%d" % i, g, rng, 3))
     for i, g in enumerate(operator_matrix(rng)):
         fam.append(add("opmatrix:%d" % i, g, rng, 4))
+    for g in ringwrap_family(quick):
+        fam.append(add(g["name"], g, rng, 1))
     for i in range(0, len(fam), 50):
         bad += d.run_batch(fam[i:i + 50])
     # expression trees: real parser vs precedence model
